@@ -608,7 +608,9 @@ fn run_cert(c: &CertCase) -> Outcome {
 }
 
 pub fn check(ctx: &Ctx) {
-    let quick = ctx.tier == Tier::Quick;
+    // the former thorough bounds take seconds: they are the quick tier now; `deep` = thorough
+    let quick = false;
+    let deep = ctx.tier == Tier::Thorough;
     for k in [KeyKind::Ed25519V4, KeyKind::Ed25519V6, KeyKind::EcdsaP256V4, KeyKind::EcdsaP256V6, KeyKind::Ed25519LegacyV4, KeyKind::Rsa2048V4] {
         for s in [1u64, 2, 5] {
             common::cert(k, s);
@@ -626,6 +628,9 @@ pub fn check(ctx: &Ctx) {
             (KeyKind::Rsa2048V4, 0),
             (KeyKind::Ed448V6, 1),
         ]
+        .into_iter()
+        .chain(if deep { vec![(KeyKind::EcdsaP384V4, 2), (KeyKind::EcdsaP521V4, 1), (KeyKind::EcdsaK256V4, 0), (KeyKind::Rsa2048V6, 0)] } else { vec![] })
+        .collect()
     };
     let mut ac = Vec::new();
     for (key, hash) in &keys {
@@ -667,7 +672,7 @@ pub fn check(ctx: &Ctx) {
     ctx.run_space(
         "signature_artefacts",
         true,
-        "14 signature kinds x signer keys (quick 3 + the signature-packet deviations for Ed448, EdDSA-legacy, ECDSA v6 and RSA, thorough 7; v4 and v6) x small objects: EVERY single-bit flip of the signature packet body (and one octet inserted into / removed from the hashed subpacket area at every position, area length corrected; octets appended after the signature value), of the verifying key packet body, and of the signed content (plus every truncation and short extensions / prefixes), and substitution of 18 other keys as verifier and as signed key; each through the applicable verification API. A verdict is demanded only when the independent decoder finds the protected abstract value changed (content modulo text canonicalisation; type, algorithms, hashed area, salt, left-16, signature value with MPI normalisation; key version/time/algorithm/material); the unmodified artefact must verify. evaluations = verification attempts.",
+        "14 signature kinds x signer keys (7: Ed25519 v4/v6/legacy, ECDSA P-256 v4/v6, RSA, Ed448; thorough + P-384, P-521, secp256k1, RSA v6) x small objects: EVERY single-bit flip of the signature packet body (and one octet inserted into / removed from the hashed subpacket area at every position, area length corrected; octets appended after the signature value), of the verifying key packet body, and of the signed content (plus every truncation and short extensions / prefixes), and substitution of 18 other keys as verifier and as signed key; each through the applicable verification API. A verdict is demanded only when the independent decoder finds the protected abstract value changed (content modulo text canonicalisation; type, algorithms, hashed area, salt, left-16, signature value with MPI normalisation; key version/time/algorithm/material); the unmodified artefact must verify. evaluations = verification attempts.",
         ac.into_par_iter(),
         run_art,
     );
@@ -680,7 +685,7 @@ pub fn check(ctx: &Ctx) {
                     if !one_pass && signers == 2 {
                         continue;
                     }
-                    for n in if quick { vec![0usize, 12] } else { vec![0usize, 1, 12, 40] } {
+                    for n in if quick { vec![0usize, 12] } else if deep { vec![0usize, 1, 2, 12, 40, 100, 513] } else { vec![0usize, 1, 12, 40] } {
                         mc.push(MsgCase { key, signers, text, one_pass, n });
                     }
                 }
